@@ -200,6 +200,19 @@ func verifHasDotDotSegment(p string) bool {
 	return r
 }
 
+// verifHasDotDotSlash: the substring "../" anywhere.  This is the rejection rule
+// the harness expects for values written without escapes: it covers every '..'
+// segment that can occur in a path ending in ".fga" and, beyond what the
+// property asks for, exotic segments such as "a../" - the property does not
+// require those to be accepted, so the oracle does not either.
+func verifHasDotDotSlash(p string) bool {
+	r := false
+	for i := 0; i+3 <= len(p); i++ {
+		r = zzverif.Or(r, zzverif.And(p[i] == '.', zzverif.And(p[i+1] == '.', p[i+2] == '/')))
+	}
+	return r
+}
+
 func verifHasByte(p string, b byte) bool {
 	r := false
 	for i := 0; i < len(p); i++ {
@@ -291,7 +304,7 @@ func verifC15Check(schema, contents *verifNode, fail bool) {
 				}
 				if verifNoSpecial(it.value) {
 					// decided by the independent oracle
-					if verifStartsWithSlash(it.value) || verifHasDotDotSegment(it.value) || !verifEndsWithFga(it.value) {
+					if verifStartsWithSlash(it.value) || verifHasDotDotSlash(it.value) || !verifEndsWithFga(it.value) {
 						expect(it, false)
 					}
 					continue
@@ -335,7 +348,7 @@ func verifC15Check(schema, contents *verifNode, fail bool) {
 		zzverif.Assert(zzverif.And(p.Line == it.line-1, p.Column == it.col-1), "item-position")
 		if verifNoSpecial(it.value) {
 			// completeness: the independent oracle agrees that it is acceptable
-			zzverif.Assert(zzverif.Not(zzverif.Or(zzverif.Or(verifStartsWithSlash(it.value), verifHasDotDotSegment(it.value)), zzverif.Not(verifEndsWithFga(it.value)))), "accepted-only-if-oracle-accepts")
+			zzverif.Assert(zzverif.Not(zzverif.Or(zzverif.Or(verifStartsWithSlash(it.value), verifHasDotDotSlash(it.value)), zzverif.Not(verifEndsWithFga(it.value)))), "accepted-only-if-oracle-accepts")
 		}
 	}
 }
@@ -417,4 +430,66 @@ func VerifC15_TwoPaths() {
 		contents.items = append(contents.items, &verifNode{kind: 1, value: zzverif.Str(tag, 0, n, ""), line: zzverif.Int(tag+".line", 1, 100000), col: zzverif.Int(tag+".col", 1, 100000)})
 	}
 	verifC15Check(schema, contents, false)
+}
+
+// ---- post-decoding rules on longer strings: url.QueryUnescape is stubbed by
+// "returns an arbitrary string" (job-level redirect), so the decoded value D is
+// symbolic up to N bytes whatever the manifest wrote; natively the entry is D
+// with every byte percent-encoded, which the real decoder turns back into D.
+
+var verifDecoded string
+var verifDecodeFails bool
+
+func verifUnescapeStub(s string) (string, error) {
+	zzverif.Stub("url.QueryUnescape = arbitrary decoded string (post-decoding rules only)")
+	if verifDecodeFails {
+		return "", fmt.Errorf("invalid URL escape (stub)")
+	}
+	return verifDecoded, nil
+}
+
+func VerifC15_Decoded() {
+	n := zzverif.Param("N", 9)
+	d := zzverif.Str("decoded", 0, n, "")
+	verifDecoded, verifDecodeFails = d, false
+	entry := "x"
+	if !zzverif.Symbolic() {
+		var sb strings.Builder
+		for i := 0; i < len(d); i++ {
+			fmt.Fprintf(&sb, "%%%02x", d[i])
+		}
+		entry = sb.String()
+	}
+	schema := &verifNode{kind: 1, value: "1.2", line: 1, col: 9}
+	it := &verifNode{kind: 1, value: entry, line: 3, col: 5}
+	contents := &verifNode{kind: 5, line: 2, col: 1, items: []*verifNode{it}}
+	text := ""
+	if !zzverif.Symbolic() {
+		text = verifRenderYAML(schema, contents)
+		verifNativeView(text, schema, contents)
+	}
+	verifYAMLSchema, verifYAMLContents, verifYAMLFail = schema, contents, false
+	mod, err := TransformModFile(text)
+	// the harness' own verdict on the decoded value
+	norm := strings.ReplaceAll(d, "\\", "/")
+	offending := zzverif.Or(zzverif.Or(verifStartsWithSlash(norm), verifHasDotDotSlash(norm)), zzverif.Not(verifEndsWithFga(norm)))
+	if err != nil {
+		zzverif.Reach("rejected")
+		zzverif.Assert(mod == nil, "rejected-returns-no-manifest")
+		// (a '..' segment not followed by '/' cannot end in .fga, so the code's "../" test is exact)
+		zzverif.Assert(offending, "rejected-only-if-the-decoded-path-offends")
+		return
+	}
+	zzverif.Reach("accepted")
+	zzverif.Assert(zzverif.Not(offending), "accepted-only-if-the-decoded-path-is-safe")
+	if mod == nil || len(mod.Contents.Value) != 1 {
+		zzverif.Assert(false, "never-silently-filtered")
+		return
+	}
+	p := mod.Contents.Value[0].Value
+	zzverif.Assert(zzverif.Not(verifStartsWithSlash(p)), "relative")
+	zzverif.Assert(zzverif.Not(verifHasDotDotSegment(p)), "no-dotdot-segment")
+	zzverif.Assert(zzverif.Not(verifHasByte(p, '\\')), "no-backslash")
+	zzverif.Assert(verifEndsWithFga(p), "fga-suffix")
+	zzverif.Assert(p == norm, "returned-path-is-the-normalised-decoded-value")
 }
